@@ -832,7 +832,7 @@ func verifC11Gen(r *verifutil.Rand, i int, thorough bool) []string {
 
 func TestVerifC11(t *testing.T) {
 	verifutil.Main(t, &verifutil.Harness{
-		ID: "C11", Exec: verifC11Exec, Gen: verifC11Gen, Quick: 60, Thorough: 1500,
+		ID: "C11", Exec: verifC11Exec, Gen: verifC11Gen, Quick: 300, Thorough: 8000,
 		Class: func(op, impl string) string {
 			f := strings.Fields(op)
 			switch f[0] {
